@@ -241,14 +241,15 @@ func compile(patterns []string, mode Mode) (*regexp.Regexp, error) {
 						r, w = utf8.DecodeRuneInString(pat)
 						switch r {
 						case '.', '=', ':':
+							j := strings.Index(pat[w:], string(r)+"]")
+							if j == -1 {
+								// not terminated: an ordinary '['
+								b.WriteString(`\[`)
+								continue Bracket
+							}
 							b.WriteByte('[')
 							b.WriteRune(r)
 							pat = pat[w:]
-							j := strings.Index(pat, string(r)+"]")
-							if j == -1 {
-								w = 0
-								break Bracket
-							}
 							w = j + 2
 							b.WriteString(pat[:w])
 						default:
